@@ -446,6 +446,14 @@ def run_conc(pid, tier, seed, replay):
         if not quick:
             run.add_mc("MC_Conc", "MC_Conc_C03_3", workers=12)
     if pid == "C16":
+        # the key stripes: lock_key against flushes that take every stripe one after the other (a step per stripe): no deadlock,
+        # termination; "take what is free first, then wait" must deadlock
+        run.add_mc("MemcStripes", "MC_Stripes", workers=8)
+        run.add_mc("MemcStripes", "MC_Stripes3", workers=4)
+        r = tlc_mc("MemcStripes", "MC_Stripes_trylock", workers=6, timeout=600)
+        if r["ok"] or "Deadlock" not in str(r["violated"]):
+            raise ToolError("MemcStripes with the try-lock pass should deadlock (got %s)" % r["violated"])
+        run.extra.setdefault("sensitivity", []).append("MemcStripes with Ordered = FALSE deadlocks, as expected")
         run.add_mc("MemcEvict", "MC_Evict", workers=8)           # eviction sweeps: every store returns
         if not quick:
             run.add_mc("MemcEvict", "MC_Evict3", workers=12, timeout=3000)
